@@ -183,3 +183,43 @@ PROPS['C12'] = dict(
              'wait while no eligible pilot': 'P',
              'round robin loads differ by at most one': 'B (consecutive order P, corollary by native histories)',
              'backfilling eligibility / HWM / usage': 'not yet built'})
+
+_OP = ('operation granularity: each critical section / handler is one atomic operation (A7, CPython GIL for the single shared accesses outside the lock); '
+       'the interleaving argument is the token discipline: a finish needs the token, the token is obtained only by deleting the uid from _tasks under _check_lock after finding it there, an atomic test-and-delete that at most one thread can win')
+
+PROPS['C07'] = dict(
+    level='other',
+    claim='Popen executor: every function that can finish a task (_check_running, cancel_task, work error path) is verified against a token discipline on _tasks: the release of a task is requested and the task handed on only by the thread that removed its uid from _tasks inside _check_lock (or before the process was spawned), every token taken is consumed by exactly one release + one hand-on, execution start is announced once per accepted task; ' + _OP,
+    note='_handle_task/_launch_task (script generation, subprocess spawn) by assumed contract: raises only before the process exists; watcher-thread liveness and the timeout thread are not under contract; NOOP executor not built',
+    assumptions=['A2', 'A4', 'A5', 'A7', 'A8', 'A9', 'A11'],
+    trusted_base=['Popen._handle_task (assumed contract)', 'subprocess.Popen poll/wait', 'LaunchMethod.cancel_task'],
+    explanation='ghost token set + finish log; per-operation postconditions',
+    clauses={'execution start announced once': 'P', 'handed on / released at most once per obtained token': 'P',
+             'never both canceled and collected (token is exclusive)': 'P at operation level + atomicity argument (A7)',
+             'never left behind (every token is consumed)': 'P per operation; watcher liveness N',
+             'launch error: released once, handed on as FAILED': 'P under the assumed _handle_task contract'})
+
+PROPS['C08'] = dict(
+    level='other',
+    claim='cancel handling: BaseComponent.is_canceled (exactly the named tasks are reported CANCELED once and the request consumed, others untouched), the executor\'s cancel command (only named uids are passed to cancel_task, bystanders keep their entry and are not finished), Popen.cancel_task (finishes only a task the executor still owns, once, as CANCELED; everything else untouched) are verified for every state; one recorded finding: a placed task canceled at the executor intake is not released',
+    note='the scheduler-side removal from the wait pool (_schedule_incoming, cancel branch) and TaskManager.cancel_tasks are not yet under contract; end-to-end composition across components is assumed (message transport)',
+    assumptions=['A2', 'A4', 'A5', 'A7', 'A9', 'A11'],
+    explanation='frame contracts at each component + recorded finding (known_findings.json)',
+    clauses={'named task met later is canceled instead of processed': 'P',
+             'kill running process, resources freed exactly once, ends CANCELED unless finished': 'P (operation level)',
+             'bystanders unaffected at the executor': 'P',
+             'placed task canceled at the executor intake releases its placement': 'KNOWN FINDING (open)',
+             'wait pool removal (scheduler)': 'not yet built'})
+
+PROPS['C05'] = dict(
+    level='other',
+    claim='per-component truthfulness clauses: a collected process outcome becomes DONE iff exit code 0 and FAILED (with exit code) otherwise (Popen._check_running); a launch error fails that task only and releases it (Popen.work); raptor results: DONE iff exit code 0, every result handed on once even if the user callback raises (Master._result_cb); FAILED / CANCELED advances on agent and client side set the target state, are published and never pushed (AgentComponent.advance / ClientComponent.advance): all obligations discharged',
+    note='global liveness ("reaches exactly one final state while the pilot is alive") and the delivery order of messages are outside this family; BaseComponent.work_cb / _work_loop (error containment of a whole work routine), the stagers and tmgr staging_output are not yet under contract',
+    assumptions=['A2', 'A4', 'A5', 'A7', 'A9', 'A11'],
+    explanation='outcome -> state mappings per function',
+    clauses={'DONE only if exit code 0; FAILED with exit code otherwise': 'P',
+             'launch error -> FAILED for that task only': 'P (assumed _handle_task contract)',
+             'FAILED/CANCELED handed back published, not pushed': 'P',
+             'CANCELED only if cancellation or timeout requested': 'partly (cancel sites under contract: is_canceled, cancel_task)',
+             'work routine failure contained (work_cb)': 'not yet built',
+             'reaches exactly one final state (liveness)': 'N'})
